@@ -1,0 +1,35 @@
+//go:build verif
+
+// Contracts for package database, checked by /verif/govc (comment-only file; compiled only
+// with the build tag "verif", which no build of the application uses).
+package database
+
+// ---------------------------------------------------------------------------
+// Loading (C15, C10). loadsOK(path) names "this file currently loads": a trusted link between two
+// loads of the same path within one operation (a stable file system).
+//@ pure func loadsOK(path string) bool
+
+// Index construction: the command list itself is never touched (functional contracts: C03).
+//@ func (*Database).BuildUniversalIndex
+//@   modifies db.*
+//@   ensures[index.keeps-commands] db.Commands == old(db.Commands)
+//@ func (*Database).buildTFIDFSearcher
+//@   modifies db.*
+//@   ensures[tfidf.keeps-commands] db.Commands == old(db.Commands) && db.uIndex == old(db.uIndex)
+
+//@ func LoadDatabase
+//@   modifies nothing
+//@   ensures[C15.load-shape] (result1 == nil) <==> (result0 != nil)
+//@   ensures[C15.load-no-typed-nil] (istype(result1, *errors.AppError) ==> astype(result1, *errors.AppError) != nil) && !istype(result1, *errors.DatabaseError)
+//@   ensures[C15.load-missing] fileMissing(filename) ==> result1 != nil && errorsIs(result1, fs.ErrNotExist) && istype(result1, *errors.AppError) && astype(result1, *errors.AppError) != nil && astype(result1, *errors.AppError).Cause != nil && os.IsNotExist(astype(result1, *errors.AppError).Cause)
+//@   ensures[C15.load-perm] filePermDenied(filename) ==> result1 != nil && errorsIs(result1, fs.ErrPermission)
+//@   trusted-ensures[C15.load-stable] (result1 == nil) <==> loadsOK(filename)
+
+//@ func LoadDatabaseWithPersonal
+//@   modifies nothing
+//@   ensures[C15.lwp-shape] (result1 == nil) <==> (result0 != nil)
+//@   ensures[C15.lwp-no-typed-nil] istype(result1, *errors.AppError) ==> astype(result1, *errors.AppError) != nil
+//@   ensures[C15.lwp-main-missing] fileMissing(mainDBPath) ==> result1 != nil && errorsIs(result1, fs.ErrNotExist)
+//@   ensures[C15.lwp-main-perm] filePermDenied(mainDBPath) ==> result1 != nil && errorsIs(result1, fs.ErrPermission)
+//@   ensures[C15.lwp-real] loadsOK(mainDBPath) && (loadsOK(personalDBPath) || fileMissing(personalDBPath)) ==> result1 == nil
+//@   ensures[C15.lwp-main-fails] !loadsOK(mainDBPath) ==> result1 != nil
